@@ -1,5 +1,22 @@
 """Human-written level texts for MANIFEST.json."""
 META = {
+    "C20": dict(
+        text="Proof: overlay laws for every parameter map (each librdkafka.-prefixed parameter reaches the client configuration verbatim under the "
+             "stripped key and wins over the default; unprefixed parameters never change it: overlay_top, overlay_sub, overlay_ignores_unprefixed, "
+             "overlay_filter_prefixed), checkConfig accepts exactly the listed configurations (checkConfig_iff), typed getters return value-or-default "
+             "exactly when it parses and lies within bounds (int/string/float, the float law for every parser/formatter pair that round-trips). "
+             "Tied to the four real buildConfigMap functions, checkConfig and the getters by differential runs.",
+        note="Trusted: Lean kernel, model transcription incl. re-implemented Atoi/ParseBool (differentially compared with Go), Go's float parsing/formatting "
+             "as parameters. atoi∘itoa is kernel-evaluated on boundary values, not proved for all n.",
+    ),
+    "C08": dict(
+        text="Proof: for every operation sequence the Lean model of the recovery tracker satisfies: merge coverage = old ∪ new (add_covered), "
+             "update touches only the head request when its 'to' matches, completion removes exactly the named requests, get returns the oldest, "
+             "and state-based replication: a replica that saw all broadcasts or ANY log compaction of them (Compacts relation) holds the sender's "
+             "state (snapshot_replication, compaction_invisible). Tied to the Go tracker by differential runs with two real replica trackers fed the real JSON payloads.",
+        note="Trusted: Lean kernel, model transcription, JSON codec treated as identity (exercised, not proved), recording FBContext. "
+             "Replication theorems cover local-operation histories; interleaved receives are covered by correspondence + Spec oracle.",
+    ),
     "C06": dict(
         text="Proof: the lag-cap arithmetic, trimming and error-abort rules of assignPartitions are proved in Lean for all int64-range inputs "
              "of the statement (no wrap-around, exact start offset, exact request range, abort on any query error). The Lean model is tied to "
